@@ -141,6 +141,9 @@ class Runner:
         exe = build.harness("trace.cpp", flavour)
         trace = self.path("s")
         cmd = [exe, BASE_LOG, "--cfg=tracing:yes", "--cfg=tracing/filename:" + trace] + ["--cfg=" + o for o in opts]
+        if flavour != "hooks":
+            # raw contexts + exceptions under ASan = report inside the sanitizer's own sigaltstack interceptor (not SimGrid's)
+            cmd.append("--cfg=contexts/factory:thread")
         res = proc.run(cmd, stdin=text, timeout=300)
         w = {"kind": "s4u", "text": text, "opts": list(opts), "flavour": flavour}
         return self.judge(kind if flavour == "hooks" else kind + "-asan", w, res, trace, "END " in (res.out or ""))
@@ -169,8 +172,10 @@ class Runner:
         return self.judge("mpi", w, res, trace, done == m["np"])
 
 
-def gen_mpi(rng):
-    return {"plat": rng.choice([0, 0, 1, 2]), "np": rng.choice([2, 3, 4, 4, 5, 6]), "seed": rng.randrange(1, 10 ** 6),
+def gen_mpi(rng, opts, tame):
+    # clusters create routers, cluster_multi has sibling zones: both hit open known findings as soon as the platform is traced
+    plats = [0] if tame and tracegen.needs_platform(opts) else [0, 0, 1, 2]
+    return {"plat": rng.choice(plats), "np": rng.choice([2, 3, 4, 4, 5, 6]), "seed": rng.randrange(1, 10 ** 6),
             "nops": rng.choice([4, 8, 12, 20]), "mask": rng.choice([127, 127, 127 - 16, 1 + 4 + 64, 2 + 4, 127 - 64])}
 
 
@@ -217,10 +222,16 @@ def run(ctx):
                 force.add("fail")
             if i % 11 == 4:
                 force.add("maestro")
-            sc = tracegen.gen_s4u(rng, force)
+            wild = (i % 4 == 0)      # wild cases keep the triggers of the open known findings, tame ones leave them out
             opts = tracegen.gen_s4u_options(rng)
-            if sc["uses_vm"] and rng.random() < 0.6 and not any(o.startswith("tracing/vm") for o in opts):
+            if "vm" in force and wild and rng.random() < 0.6 and "tracing/vm:yes" not in opts:
                 opts.append("tracing/vm:yes")
+            if not wild:
+                opts = [o for o in opts if o != "tracing/vm:yes"]     # tracing/vm aborts at platform creation (known finding)
+                if not any(o.split(":")[0] in ("tracing/actor", "tracing/categorized", "tracing/uncategorized", "tracing/platform") for o in opts):
+                    opts.append("tracing/platform:yes")
+            sc, opts = tracegen.gen_s4u(rng, opts, tame=not wild, force=force)
+            ctx.count("cases.s4u.wild" if wild else "cases.s4u.tame")
             if i < 4:
                 ctx.sample({"kind": "s4u", "opts": opts, "features": sc["feat"], "text": sc["text"][:600]})
             jobs.append(("s4u", sc["text"], opts, "hooks", "s4u"))
@@ -228,8 +239,12 @@ def run(ctx):
                 jobs.append(("s4u", sc["text"], opts, "asan", "s4u"))
         for i in range(n_mpi):
             rng = ctx.sub_rng("mpi", i)
-            m = gen_mpi(rng)
             opts = tracegen.gen_mpi_options(rng)
+            wild = (i % 4 == 0)
+            m = gen_mpi(rng, opts, not wild)
+            if not wild and tracegen.has(opts, "tracing/categorized") and not tracegen.has(opts, "tracing/uncategorized"):
+                m["mask"] &= ~32
+            ctx.count("cases.mpi.wild" if wild else "cases.mpi.tame")
             jobs.append(("mpi", m, opts))
 
         def one(j):
